@@ -54,6 +54,13 @@
 //     texts also in traced functions.  Nil dereferences of abstract pointers
 //     and mutation through them are not modelled (calls on them are trace
 //     entries);
+//   - in symbolic mode trace entries also show arguments that are tokens
+//     (`toString` of an `Option String`), translated structs (`reprStr`), values
+//     read through a pointer ("<nil-deref>" if it is nil) and `x.M()` on an
+//     abstract `x` (the token "x.M()"); a method call on an abstract value has
+//     the receiver's token as its first trace argument;
+//   - the ignore entry "defer func" drops a deferred closure (pool returns,
+//     error annotation that keeps nil-ness);
 //   - []error literals, append on them and errors.Join are lists of optional
 //     texts and "first non-nil" (errors.Join is non-nil iff an element is);
 //   - any other call is *opaque*: its result becomes an extra parameter of the
@@ -1098,6 +1105,12 @@ func (c *fctx) call(x *ast.CallExpr) ex {
 // values of those arguments that are pure expressions of translatable type.
 func (c *fctx) traceEntry(x *ast.CallExpr) string {
 	var args []string
+	if se, ok := x.Fun.(*ast.SelectorExpr); ok && c.t.symbolic {
+		// a method of an abstract value: the receiver's token comes first
+		if sel := c.p.info.Selections[se]; sel != nil && sel.Kind() == types.MethodVal && c.t.abstract(sel.Recv()) {
+			args = append(args, c.traceArg(se.X))
+		}
+	}
 	for _, a := range x.Args {
 		args = append(args, c.traceArg(a))
 	}
@@ -1118,20 +1131,59 @@ func (c *fctx) traceArg(a ast.Expr) (code string) {
 		return code
 	}
 	lt := c.t.leanType(tv.Type)
-	if lt != "Int" && lt != "Bool" && lt != "String" {
+	render := "(toString %s)"
+	switch {
+	case lt == "String":
+		render = "%s"
+	case lt == "Int" || lt == "Bool":
+	case c.t.symbolic && lt == "(Option String)":
+	case c.t.symbolic && (strings.HasPrefix(lt, "S_") || strings.HasPrefix(lt, "(Option S_")):
+		render = "(reprStr %s)"
+	default:
 		return code
 	}
+	if call, ok := a.(*ast.CallExpr); ok && c.t.symbolic && len(call.Args) == 0 {
+		// x.M() on an abstract value x, as an argument: the token "x.M()"
+		if se, ok := call.Fun.(*ast.SelectorExpr); ok {
+			if sel := c.p.info.Selections[se]; sel != nil && sel.Kind() == types.MethodVal && c.t.abstract(sel.Recv()) {
+				if r := c.traceArg(se.X); r != "\"_\"" {
+					return fmt.Sprintf("(%s ++ %q)", r, "."+se.Sel.Name+"()")
+				}
+			}
+		}
+	}
 	// Do not let a nested opaque call allocate parameters from here.
-	savedN, savedO, savedP := c.nOpaque, len(c.opaque), c.partial
+	savedN, savedO, savedP, savedC := c.nOpaque, len(c.opaque), c.partial, len(c.opaqueCalls)
 	e := c.expr(a)
-	if e.partial || strings.Contains(e.code, "«call:") || c.nOpaque != savedN {
+	// (symbolic mode: reading an opaque *value* is fine, only calls are not)
+	if (e.partial && !c.t.symbolic) || strings.Contains(e.code, "«call:") || (c.nOpaque != savedN && !(c.t.symbolic && len(c.opaqueCalls) == savedC)) {
 		c.nOpaque, c.opaque, c.partial = savedN, c.opaque[:savedO], savedP
+		c.forget()
 		return "\"_\""
 	}
-	if lt == "String" {
-		return e.code
+	if e.partial {
+		// symbolic mode: an argument read through a pointer (nil: "<nil-deref>")
+		return fmt.Sprintf("(match %s with | some v => "+render+" | none => \"<nil-deref>\")", e.code, "v")
 	}
-	return "(toString " + e.code + ")"
+	return fmt.Sprintf(render, e.code)
+}
+
+// forget drops the memo entries of opaque parameters that were rolled back.
+func (c *fctx) forget() {
+	kept := map[string]bool{}
+	for _, p := range c.opaque {
+		kept[strings.Fields(p[1:])[0]] = true
+	}
+	for k, n := range c.opaqueVals {
+		if !kept[n] {
+			delete(c.opaqueVals, k)
+		}
+	}
+	for k, n := range c.opaqueCalls {
+		if !kept[n] {
+			delete(c.opaqueCalls, k)
+		}
+	}
 }
 
 func lastName(s string) string {
@@ -1350,6 +1402,13 @@ func (c *fctx) stmts(list []ast.Stmt) string {
 	case *ast.DeferStmt:
 		if c.matches(c.spec.Ignore, x.Call) {
 			return c.stmts(rest)
+		}
+		if _, ok := x.Call.Fun.(*ast.FuncLit); ok {
+			for _, p := range c.spec.Ignore {
+				if p == "defer func" {
+					return c.stmts(rest)
+				}
+			}
 		}
 		fail("defer %s", c.show(x))
 	}
